@@ -309,6 +309,15 @@ func (c *c03) serverTable() map[string][]*srvEntry {
 		e.Results = make([]string, nres)
 		if as != nil && len(as.Lhs) == nres {
 			for i, lhs := range as.Lhs {
+				// the result is stored straight into a field of a local reply value (reply.QID, ... = GetAttr())
+				if sel, isSel := unparen(lhs).(*ast.SelectorExpr); isSel {
+					if bo := objOf(info, sel.X); bo != nil && bo.Parent() != bo.Pkg().Scope() {
+						if nt := namedOf(bo.Type()); nt != nil && strings.HasPrefix(nt.Obj().Name(), "r") && nt.Obj().Pkg().Name() == "p9" {
+							e.Results[i] = sel.Sel.Name
+							continue
+						}
+					}
+				}
 				obj := objOf(info, lhs)
 				if obj == nil {
 					continue
@@ -440,6 +449,21 @@ func (c *c03) deriveArg(h *HandlerInfo, res *resolver, a ast.Expr) string {
 		// a local clamped from a request field (count := t.Count; if count > max { count = max }):
 		// the documented shortening of reads and directory listings
 		if v, ok := objOf(info, id).(*types.Var); ok && !v.IsField() {
+			// the same shortening written with the builtin: count := min(t.Count, limit)
+			if d := res.defs[v]; d != nil {
+				if mc, isCall := unparen(d).(*ast.CallExpr); isCall && len(mc.Args) == 2 {
+					if mid, isId := mc.Fun.(*ast.Ident); isId && mid.Name == "min" {
+						if _, isB := info.Uses[mid].(*types.Builtin); isB {
+							for _, a := range mc.Args {
+								as := res.str(c.stripConv(a))
+								if h.Recv != "" && strings.HasPrefix(as, h.Recv+".") {
+									return "field:" + lastComp(strings.TrimPrefix(as, h.Recv+"."))
+								}
+							}
+						}
+					}
+				}
+			}
 			for _, d := range defsOf(c.r.L, info, h.Fi, v) {
 				ds := res.str(c.stripConv(d.Rhs))
 				if h.Recv != "" && strings.HasPrefix(ds, h.Recv+".") && d.Cond == nil {
